@@ -25,7 +25,7 @@ CHECKS = {
    design="5/C03", technique="TLA+ history spec (SetKexp) + TLC invariant CheckK + trace validation of k_exp histories"),
  "C04": dict(text="The aggregation schema (every path of Balance = sum of per-carrier paths; breakdowns; per-m2 = absolute / area) is data of the TLA+ trace specification and is checked by TLC on every path of every recorded evaluation, over histories with four areas." + BOTH,
    design="5/C04", technique="TLA+ aggregation schema + trace validation of every Balance path over area histories"),
- "C05": dict(text="The normalisation of a parsed file is specified as a TLA+ state machine (spec/Components.tla: one action per visited system id, order left open). TLC explores EVERY schedule on a family of files (tuples of system profiles, negative and shared ids) and checks confluence, the closed form max(0, use - declared), preservation of declared lines and idempotence; every file is parsed by the real parser under several hash orders recorded by the hooks, and TLC validates each recorded normalisation step by step against the state machine and evaluates the closed forms on (declared, parsed).",
+ "C05": dict(text="The normalisation of a parsed file is specified as a TLA+ state machine (spec/Components.tla: one action per visited system id, order left open). TLC explores EVERY schedule on a family of files (tuples of system profiles, negative and shared ids) and checks confluence, the closed form max(0, use - declared), preservation of declared lines and idempotence; every file is parsed by the real parser under several hash orders recorded by the hooks, and TLC validates each recorded normalisation step by step against the state machine and evaluates the closed forms on (declared, parsed). Demand lines have their own small state machine (AddNeed per DEMANDA line, closed form DeclaredNeed): MC_Comp!DemandKept at model level, TraceComp!DemandsKept on the declared lines logged by the harness.",
    design="5/C05", technique="TLA+ state machine of normalize() + TLC over all schedules + trace validation of hook-recorded normalisations"),
  "C06": dict(text="Abstract specification P_C06 (per system and step conservation of auxiliary energy, no negative share, proportionality to |Q|) checked by TLC on the normalisation state machine over all schedules (MC_Comp, 1-3 systems) and on every recorded normalisation and evaluation of the real library (Parse and Eval events).",
    design="5/C06", technique="TLA+ abstract spec P_C06 + TLC over all schedules + trace validation of Parse/Eval events"),
@@ -48,13 +48,13 @@ CHECKS = {
  "C15": dict(text="spec/Acs.tla transcribes the DHW renewable-share indicator branch by branch; TLC enumerates the supply mixes x other services x non-EPB use x auxiliaries x demand classes and checks range, closed forms of the canonical mixes, the invariances and the error classes on the specification (MC_C15); the mixes are replayed on the real library and TLC recomputes the fraction from the logged inputs (value or error class), checks the misc keys and the invariance over histories (k_exp, scaling, load matching).",
    design="5/C15", technique="TLA+ transcription of the indicator + TLC enumeration of supply mixes + trace validation (recomputation and histories)"),
  "C16": dict(category="fault_enumeration",
-   text="Model-driven fault enumeration: spec/Faults.tla defines the token-level corruption actions and TLC enumerates every fault (quick) / every fault pair (thorough) from components and factor files over an alphabet of atoms, plus token soups; each text is run through every public library entry point (catch_unwind) and through the real program, with valid texts of every kind and option atoms; the oracle is the terminal-state set of the specification (Trace_C16): Ok / typed error, deliberate exit code with stderr - Panic, signal, timeout are not states. This is the right level because the property is the absence of a bad terminal state over a generated input space, not a functional relation.",
+   text="Model-driven fault enumeration: spec/Faults.tla defines the token-level corruption actions and TLC enumerates every fault (quick) / every fault pair (thorough) from components and factor files over an alphabet of atoms, plus token soups; each text is run through every public library entry point (catch_unwind) and through the real program, with valid texts of every kind and option atoms; the oracle is the terminal-state set of the specification (Trace_C16): Ok / typed error, deliberate exit code with stderr - Panic, signal, timeout are not states. This is the right level because the property is the absence of a bad terminal state over a generated input space, not a functional relation. The program itself is a sequential state machine in spec/Program.tla (one action per stage of main(), each ending with a deliberate code or going on); TLC checks TerminalOk and Progress on it from every configuration of inputs (missing, a directory, empty, metadata only, remarks only, not a components file), factor sources, writable / unwritable outputs and flags, and every configuration is realised and run by the real binary (Trace_Prog16: terminal state VERDICT, exit code / files written / report against Program!Outcome as DRIFT).",
    design="5/C16", technique="TLA+ fault actions + TLC enumeration of fault sequences + terminal-state trace oracle"),
  "C17": dict(text="spec/Output.tla models the three renderings as token streams: a pushdown acceptor for the XML subset (plus element counts and numeric leaves), a table from every entry of the plain report to the path of the value it prints, and the flattened JSON. TLC enumerates the free-text strings (all sequences of at most 2 / 3 atoms incl. markup characters, quotes, backslash, non-ASCII) and checks the escaping at atom level; the real renderings of lattice buildings, random buildings, shipped files and every enumerated string - and the documents the real program writes - are lexed by the harness and judged by TLC.",
    design="5/C17", technique="TLA+ token-stream model (pushdown acceptor, report table) + TLC enumeration of strings + trace validation of lexed outputs"),
  "C18": dict(text="TextFormat.tla specifies Print / Parse of every kind of component line; TLC checks Parse(Print(c)) = c for every kind, id and tag (MC_C18). On the real library a RoundTrip event records a set written with Display, its tokenised lines and the re-read set: TLC judges the printed lines against TextFormat!PrintLine, metadata / components / demands / factors of the re-read sets at the printed precision, and the Session history Evaluate ; SaveReload ; Evaluate - also through the real program (--oc --of, second run on the saved files).",
    design="5/C18", technique="TLA+ Print/Parse spec + TLC round-trip invariant + trace validation of save/reload histories (library and CLI)"),
- "C19": dict(text="spec/Cli.tla is a finite model of option / metadata / default resolution and exit codes; TLC enumerates its configuration space (complete product in the thorough tier) and every configuration is executed by the real binary; TLC judges exit code, origin lines, effective values in --json, write-back in --oc and the per-m2 ratio against Cli!Allowed (set-valued where the statement is silent).",
+ "C19": dict(text="spec/Cli.tla is a finite model of option / metadata / default resolution and exit codes; TLC enumerates its configuration space (complete product in the thorough tier) and every configuration is executed by the real binary; TLC judges exit code, origin lines, effective values in --json, write-back in --oc and the per-m2 ratio against Cli!Allowed (set-valued where the statement is silent). The clause 'no result when refused' is also checked on the program state machine of spec/Program.tla (NoResultWhenRefused at model level, Trace_Prog19 on real runs of every configuration).",
    design="5/C19", technique="finite TLA+ model of the CLI + TLC enumeration of configurations + trace validation of real executions"),
 }
 
